@@ -111,7 +111,7 @@ def load(
 
     with data_loader("definition.json").open("rt") as fh:
         content = json.load(fh)
-    return from_state_dict(content, as_instance=as_instance)
+    return from_state_dict(content, data_loader, as_instance=as_instance)
 
 
 def from_task_dir(
@@ -125,4 +125,4 @@ def from_task_dir(
 
     content["data"] = {"type": "python", "value": content["objects"][-1]["id"]}
 
-    return from_state_dict(content, as_instance=as_instance)
+    return from_state_dict(content, data_loader, as_instance=as_instance)
